@@ -1,4 +1,5 @@
 import CobraModel.Lemmas.CoreBase
+import CobraModel.Lemmas.GPR
 /-!
 Metabolites joining and leaving the model, scaling a reaction: each keeps `Good`, and what it records on the context stack undoes it.
 -/
@@ -564,6 +565,53 @@ theorem removeRxns_step (orphans : Bool) (rs : List Id) (y : Sys) (g : Good y.s)
         exact i3 x (fun e => hx (List.mem_cons_of_mem _ e))
 
 /-! ### a new gene rule -/
+
+theorem removeGenesRaw_good {s : St} (g : Good s) (ks : Id → Bool) : Good (removeGenesRaw s ks) := by
+  have w := g.wf
+  refine ⟨⟨g.ns.rev_ne, g.ns.rev_inj⟩, ?_, ⟨g.sync.vars, g.sync.box, g.sync.rows, g.sync.coef, g.sync.objrev⟩⟩
+  have hsub : ∀ r x, s.hasR r = true → x ∈ genesOpt (prunedRule s ks r) → x ∈ genesOpt (s.rule r) ∧ ks x = false := by
+    intro r x hr hx
+    unfold prunedRule at hx
+    cases hrule : s.rule r with
+    | none => simp [hrule, genesOpt] at hx
+    | some t =>
+      simp only [hrule, hr, if_true] at hx
+      cases hrem : GPRM.remove ks t with
+      | none => simp [hrem, genesOpt] at hx
+      | some t' =>
+        simp only [hrem, genesOpt] at hx
+        simpa [genesOpt] using GPRM.genes_remove ks t t' hrem x hx
+  constructor
+  · exact w.mr_iff
+  · exact w.st_has
+  · intro r x hr
+    have hr' : s.hasR r = true := hr
+    show (if s.hasR r = true then (genesOpt (prunedRule s ks r)).contains x else s.rg r x) = true ↔ x ∈ genesOpt (prunedRule s ks r)
+    rw [if_pos hr']; simp
+  · intro x r hx hr
+    have hr' : s.hasR r = true := hr
+    show (if s.hasR r = true then (genesOpt (prunedRule s ks r)).contains x else s.gr x r) = true ↔
+      (if s.hasR r = true then (genesOpt (prunedRule s ks r)).contains x else s.rg r x) = true
+    rw [if_pos hr', if_pos hr']
+  · intro r x hr hrg
+    have hr' : s.hasR r = true := hr
+    have hrg' : (if s.hasR r = true then (genesOpt (prunedRule s ks r)).contains x else s.rg r x) = true := hrg
+    rw [if_pos hr'] at hrg'
+    obtain ⟨a, b⟩ := hsub r x hr' (by simpa using hrg')
+    have : s.hasG x = true := w.rg_has r x hr' ((w.rg_rule r x hr').2 a)
+    show (s.hasG x && !ks x) = true
+    simp [this, b]
+  · exact w.bounds
+  · exact w.inUniv
+  · intro x r hx hgr
+    have hx' : (s.hasG x && !ks x) = true := hx
+    have hgr' : (if s.hasR r = true then (genesOpt (prunedRule s ks r)).contains x else s.gr x r) = true := hgr
+    by_cases hr : s.hasR r = true
+    · exact hr
+    · rw [if_neg hr] at hgr'
+      simp only [Bool.and_eq_true] at hx'
+      exact w.gr_has x r hx'.1 hgr'
+  · exact w.mr_has
 
 theorem setRuleRaw_good {s : St} (g : Good s) (r : Id) (hr : s.hasR r = true) (rule : Option G) : Good (setRuleRaw s r rule) := by
   have w := g.wf
